@@ -227,6 +227,8 @@ def configs(tier, seed):
         if not quick:
             out.append({'rel': 'b', 'm': 3, 'n': 3, 'which': which, 'group': '(b) cylinder(1/r=0)=plate:%s' % which})
             out.append({'rel': 'c', 'm': 4, 'n': 4, 'which': which, 'group': '(c) w-only=block:%s' % which})
+            out.append({'rel': 'c', 'm': 7, 'n': 5, 'which': which, 'group': '(c) w-only=block:%s' % which})
+            out.append({'rel': 'b', 'm': 5, 'n': 4, 'which': which, 'group': '(b) cylinder(1/r=0)=plate:%s' % which})
     for model in ('plate', 'cpanel'):
         out.append({'rel': 'd', 'm': 2, 'n': 2, 'which': 'k0', 'model': model, 'nq': 8, 'group': '(d) numeric=analytic:%s' % model, 'kG': True})
         out.append({'rel': 'd', 'm': 2, 'n': 1, 'which': 'k0', 'model': model, 'nq': 8, 'ortho': True, 'group': '(d) numeric=analytic force_orthotropic:%s' % model})
